@@ -174,6 +174,10 @@ type check struct {
 	replay func(v *Violation) string
 	// post runs once in the driver after the workers' results were merged
 	post func(m *Result, tier string)
+	// seqSep: if set, replay understands a case of the form first+seqSep+second (two inputs
+	// parsed in this order with one reused parser state); used to confirm a worker death that
+	// the dying input alone does not reproduce
+	seqSep string
 }
 
 var checks = map[string]*check{}
@@ -337,7 +341,18 @@ func driverMain(prop, tier string) int {
 					What:        "worker process died while running this case: " + firstPanicLine(errb.String()),
 					Case:        cs.data, Config: cs.config,
 				}
-				if confirmCrash(self, &v) {
+				confirmed := confirmCrash(self, &v)
+				if !confirmed && len(cs.prev) > 0 && checks[prop].seqSep != "" {
+					// not reproducible alone: replay the two last inputs of the reused parser
+					// state in sequence
+					v2 := v
+					v2.Case = append(append(append([]byte(nil), cs.prev...), checks[prop].seqSep...), cs.data...)
+					v2.What = "worker process died on the second of two inputs parsed with the same reused parser state (the second alone is harmless): " + firstPanicLine(errb.String())
+					if confirmCrash(self, &v2) {
+						v, confirmed = v2, true
+					}
+				}
+				if confirmed {
 					results[i].Violations = append(results[i].Violations, v)
 				} else {
 					crashed[i] += "\n(not reproduced by replaying the case alone: reported as unconfirmed, not as a violation)"
